@@ -205,7 +205,7 @@ func SignHashed(rand io.Reader, priv, e []byte) (r, s []byte, err error) {
 		var eInt, rInt, sInt, rkInt, dInt, d1Int big.Int
 		var d1, d1Inv fiat.SM2ScalarElement
 
-		x := kG.GetAffineX_Unsafe() // 避免计算y坐标，可以节约计算量。由于x不需要保密，可以使用快速版本，但z的数值会泄露信息吗？TODO
+		x := kG.GetAffineX() // 避免计算y坐标，可以节约计算量。x不需要保密，但z的数值会泄露k的信息，因此使用常数时间版本
 
 		eInt.SetBytes(e)
 		rInt.Add(x, &eInt)
